@@ -88,13 +88,12 @@ Section Eq.
     match k with
     | KName n => match find_param sg n with Some p => pdefault p | None => None end
     | KPos i =>
-        match vps sg with
-        | Some s =>
-            if (0 <=? i) && (i <? Z.of_nat s) then
-              match nth_error sg (Z.to_nat i) with Some p => pdefault p | None => None end
-            else None
-        | None => None
-        end
+        if 0 <=? i then
+          match nth_error sg (Z.to_nat i) with
+          | Some p => if is_prefix_kind (pk p) then pdefault p else None
+          | None => None
+          end
+        else None
     end.
   Definition val_or_default (fn : N) (args : store) (k : skey) : option ref :=
     match sget args k with Some v => Some v | None => default_of (sig_of e fn) k end.
